@@ -19,6 +19,9 @@ enum Cmd {
     None,
     K,
     Nope,
+    /// a pre-processor line (`!print`): an instruction like any other for line and label positions, a
+    /// no-op when the script runs
+    Pre,
 }
 
 #[derive(Clone, Debug, PartialEq, Eq, Hash)]
@@ -87,6 +90,7 @@ fn render_line(l: &Line) -> String {
         Cmd::None => (),
         Cmd::K => s.push_str("k p ${x}"),
         Cmd::Nope => s.push_str("nope p"),
+        Cmd::Pre => s.push_str("!print -"),
     }
     s.trim_end().to_string()
 }
@@ -149,6 +153,7 @@ fn reference(prog: &[Line], on_error: OnError, tape: &Tape, source: Option<&str>
                 set_out(&mut vars, None);
                 pc += 1;
             }
+            Cmd::Pre => pc += 1,
             Cmd::Nope => {
                 if !nope_registered {
                     return Outcome { calls, end: fail(pc) };
@@ -385,6 +390,7 @@ fn line_forms() -> Vec<Line> {
     // value", so the variable is deleted
     v.push(Line { label: None, output: true, cmd: Cmd::None });
     v.push(Line { label: Some(":a"), output: true, cmd: Cmd::None });
+    v.push(Line { label: None, output: false, cmd: Cmd::Pre });
     v
 }
 
@@ -596,7 +602,9 @@ fn parse_prog(text: &str) -> Vec<Line> {
             if output {
                 rest = rest[3..].trim();
             }
-            let cmd = if rest.starts_with("k") {
+            let cmd = if rest.starts_with("!print") {
+                Cmd::Pre
+            } else if rest.starts_with("k") {
                 Cmd::K
             } else if rest.starts_with("nope") {
                 Cmd::Nope
@@ -645,7 +653,7 @@ pub fn crash_sig(_case: &Value, kind: &str) -> String {
     kind.to_string()
 }
 
-pub const RULE: &str = "programs: every sequence of 1..n lines over 14 line forms (`x =` and `:a x =`, and label none/:a/:b x {no command, `k p ${x}`, `x = k p ${x}`, unknown command `nope p`}), duplicates of labels included; configurations: on_error command absent / continuing / exiting / crashing, script as text and (small programs) as file; answers: at every invocation of the scripted command k one of 18 results (Continue with/without value, Continue after removing the registered on_error command / registering one where there is none, Continue after registering / removing the command `nope` that other lines use, GoTo label :a/:b/undefined, GoTo line 0/n/n+5, Error with plain message / message containing ${x}, Crash, Exit none/0/3/-1/abc), explored with a bounded number of deviations from the default answer within a horizon of choice points. Every execution of the real runner is compared with the abstract machine run on the same answers: sequence of invocations with bound arguments and the `line` each command sees, on_error arguments (message, 1-based line, source) and the value the handler finds in the output variable when it runs, final variables, success or failure with source line and file. Scale cases: programs of 300/3000 (thorough 100000) lines with a far forward jump by label over unknown commands, a jump past the end, far backward jumps by label and by line, errors on the first and last line. evaluations = programs x configurations; transitions = executions; states = distinct (calls, outcome, deviations) classes";
+pub const RULE: &str = "programs: every sequence of 1..n lines over 15 line forms (a pre-processor line `!print -`, `x =` and `:a x =`, and label none/:a/:b x {no command, `k p ${x}`, `x = k p ${x}`, unknown command `nope p`}), duplicates of labels included; configurations: on_error command absent / continuing / exiting / crashing, script as text and (small programs) as file; answers: at every invocation of the scripted command k one of 18 results (Continue with/without value, Continue after removing the registered on_error command / registering one where there is none, Continue after registering / removing the command `nope` that other lines use, GoTo label :a/:b/undefined, GoTo line 0/n/n+5, Error with plain message / message containing ${x}, Crash, Exit none/0/3/-1/abc), explored with a bounded number of deviations from the default answer within a horizon of choice points. Every execution of the real runner is compared with the abstract machine run on the same answers: sequence of invocations with bound arguments and the `line` each command sees, on_error arguments (message, 1-based line, source) and the value the handler finds in the output variable when it runs, final variables, success or failure with source line and file. Scale cases: programs of 300/3000 (thorough 100000) lines with a far forward jump by label over unknown commands, a jump past the end, far backward jumps by label and by line, errors on the first and last line. evaluations = programs x configurations; transitions = executions; states = distinct (calls, outcome, deviations) classes";
 pub const ASSUMPTIONS: &[&str] = &["a line with an output variable and no command (`x =`) is a continue result without a value: that is what the public run_instruction returns for it, so the variable is deleted", "error messages are compared only through the on_error arguments; failures are compared by line and source file"];
 pub const EXHAUSTIVE: bool = true;
 pub const WALL_CAP_S: (u64, u64) = (55, 1500);
